@@ -8,6 +8,7 @@ import (
 
 	"context"
 
+	"github.com/freeconf/yang/fc"
 	"github.com/freeconf/yang/meta"
 	"github.com/freeconf/yang/val"
 )
@@ -267,9 +268,13 @@ func BuildConstraints(sel *Selection, params map[string][]string) error {
 	}
 	constraints := NewConstraints(sel.Constraints)
 	maxDepth := MaxDepth{MaxDepth: 64}
-	if n, found := findIntParam(params, "depth"); found {
+	if n, found, err := findIntParam(params, "depth"); err != nil {
+		return err
+	} else if found {
 		if n == 0 {
 			return errMaxDepthZeroNotAllowed
+		} else if n < 0 {
+			return fmt.Errorf("%w. depth cannot be negative", fc.BadRequestError)
 		} else {
 			maxDepth.MaxDepth = n
 		}
@@ -297,7 +302,12 @@ func BuildConstraints(sel *Selection, params map[string][]string) error {
 		}
 	}
 	maxNode := MaxNode{Max: 10000}
-	if n, found := findIntParam(params, "fc.max-node-count"); found {
+	if n, found, err := findIntParam(params, "fc.max-node-count"); err != nil {
+		return err
+	} else if found {
+		if n < 0 {
+			return fmt.Errorf("%w. fc.max-node-count cannot be negative", fc.BadRequestError)
+		}
 		maxNode.Max = n
 	}
 	constraints.AddConstraint("fc.max-node-count", 10, 60, maxNode)
@@ -412,13 +422,15 @@ func (sel *Selection) Delete() (err error) {
 	return
 }
 
-func findIntParam(params map[string][]string, param string) (int, bool) {
+func findIntParam(params map[string][]string, param string) (int, bool, error) {
 	if v, found := params[param]; found {
-		if n, err := strconv.Atoi(v[0]); err == nil {
-			return n, true
+		n, err := strconv.Atoi(v[0])
+		if err != nil {
+			return 0, true, fmt.Errorf("%w. %s must be a number, not '%s'", fc.BadRequestError, param, v[0])
 		}
+		return n, true, nil
 	}
-	return 0, false
+	return 0, false, nil
 }
 
 // InsertInto Copy current node into given node.  If there are any existing containers of list
